@@ -140,6 +140,8 @@ def jval(v):
         return {"d": [[k, jval(x)] for k, x in v.items()]}
     if callable(v) and hasattr(v, "_pool_name"):
         return {"u": v._pool_name}
+    if hasattr(v, "all") and hasattr(v, "_storage"):        # a Registry
+        return {"registry": jval(dict(v.all()))}
     return {"?": type(v).__name__}
 
 
@@ -161,6 +163,11 @@ def unjson(j):
             return Fun(n)
         if "set" in j:
             return [unjson(x) for x in j["set"]]
+        if "registry" in j:
+            from cerberus.schema import RulesSetRegistry
+            r = RulesSetRegistry()
+            r._storage.update(unjson(j["registry"]))
+            return r
         raise ValueError(j)
     if isinstance(j, list):
         return [unjson(x) for x in j]
